@@ -399,3 +399,15 @@ Proof.
   destruct (run_ops_ranges ops (st0 nchars rtl) st Hn) as [[_ R] N]; [split; [cbn; lia|intros ? ? E; discriminate E]|exact Hops|exact H|].
   cbn in N. rewrite <- N. exact (R s a Ha).
 Qed.
+
+(* after associateChars a char-info never has just one side: both are slot indices or both are unset *)
+Lemma ci_both_sides_spec c : c_before (ci_both_sides c) < 0 <-> c_after (ci_both_sides c) < 0.
+Proof.
+  unfold ci_both_sides. destruct (Z.ltb_spec (c_before c) 0) as [Hb|Hb]; cbn [c_before c_after]; [tauto|].
+  destruct (Z.ltb_spec (c_after c) 0) as [Ha|Ha]; cbn [c_before c_after]; lia.
+Qed.
+Lemma assocchars_sides_together st st' : do_assocchars st = Ok st' -> forall c, In c (st_cinfo st') -> (c_before c < 0 <-> c_after c < 0).
+Proof.
+  unfold do_assocchars. destruct (assoc_pass2 _ _ _ _) as [m2 cs2]. intros H. injection H as <-. cbn [st_cinfo].
+  intros c Hin. apply in_map_iff in Hin. destruct Hin as [c0 [<- _]]. apply ci_both_sides_spec.
+Qed.
